@@ -1,4 +1,163 @@
-import GeomV.C07.JsonText
+import GeomV.C07.LemmasCost
 import GeomV.C07.Spec
+/-!
+# C07 — property theorems
+
+WKB / hex (model: `readC`/`decodeC`, the C05 reader with allocation cost; `fixed` = the code in /repo
+after commit 96798da, `unfixed` = the code before it):
+* `C07_wkb_erase`        forgetting the cost gives exactly `C05.decode` (so C05's theorems apply)
+* `C07_wkb_total`        every byte string decodes to a geometry or one of the four documented errors;
+                         the recursion budget `length + 1` is never exhausted ("never a crash")
+* `C07_wkb_depth`        recursion depth ≤ length/9 + 1 (stack use is proportional to the input)
+* `C07_wkb_alloc`        bytes requested ≤ 6·length + 32 KiB            ("count fields are not trusted")
+* `C07_wkb_alloc_spec`   … hence within the Spec bound 64·length + 64 KiB
+* `C07_wkb_alloc_unfixed_false`  the same bound is FALSE for the code before the fix (9-byte witness)
+* `C07_hex_total`, `C07_hex_alloc`
+* `C07_wkb_decoded_encodable`, `C07_reencode_stable`   decoded values re-encode and decode to themselves
+GeoJSON: see the second half of the file.
+-/
+set_option linter.unusedSimpArgs false
+set_option linter.unusedVariables false
 namespace GeomV.C07
+open GeomV GeomV.C05 GeomV.C05.Ogc
+
+/-- **C07_wkb_erase.** The cost-instrumented decoder returns exactly what the C05 model of
+`wkb.Decode` returns, for the fixed and for the unfixed allocation policy. -/
+theorem C07_wkb_erase (bs : Bytes) :
+    (decodeC fixed bs).res = C05.decode bs ∧ (decodeC unfixed bs).res = C05.decode bs :=
+  ⟨decodeC_res fixed (by decide) bs, decodeC_res unfixed (by decide) bs⟩
+
+/-- **C07_wkb_depth.** With a recursion budget of `fuel` nested `Read` calls the decoder can only run
+out of budget on inputs of at least `9·fuel` bytes: every nesting level consumes a 5-byte header and
+a 4-byte count. So the goroutine stack needed is at most `length/9 + 1` frames of `Read`. -/
+theorem C07_wkb_depth (fuel : Nat) (bs : Bytes) (h : bs.length < 9 * fuel) :
+    C05.read fuel bs ≠ .error .fuel := by
+  intro e
+  rcases (read_inv fuel bs).2 _ e with hg | ⟨_, hl⟩
+  · rcases hg with h | h | h | h <;> cases h
+  · omega
+
+/-- **C07_wkb_total.** For EVERY byte string, `wkb.Decode` returns a geometry whose member counts all
+fit the format (in particular no nil / unsupported member at any depth) or one of the four errors of
+the Go code (EOF, invalid byte order, unsupported type, unexpected member type). The model's
+recursion budget `length + 1` is never exhausted, and there is no other outcome. -/
+theorem C07_wkb_total (bs : Bytes) :
+    (∃ g, C05.decode bs = .ok g ∧ Encodable g) ∨
+    (∃ e, C05.decode bs = .error e ∧ (e = .eof ∨ e = .badOrder ∨ e = .badType ∨ e = .unexpected)) := by
+  simp only [C05.decode]
+  cases h : C05.read (bs.length + 1) bs with
+  | ok r =>
+    obtain ⟨g, t⟩ := r
+    exact .inl ⟨g, rfl, ((read_inv _ bs).1 g t h).2⟩
+  | error e =>
+    right
+    refine ⟨e, rfl, ?_⟩
+    rcases (read_inv _ bs).2 _ h with hg | ⟨_, hl⟩
+    · exact hg
+    · omega
+
+/-- **C07_wkb_alloc.** For EVERY byte string the fixed decoder requests at most `6·length + 32768`
+bytes from the allocator (explicit constants: 6 = worst ratio, a polygon of empty rings: 24-byte
+slot per 4-byte count; 32768 = one pre-sized result slice plus one chunk of 1024 points that a lying
+count can waste before the input runs out). -/
+theorem C07_wkb_alloc (bs : Bytes) : (decodeC fixed bs).cost ≤ 6 * bs.length + 32768 :=
+  decodeC_cost bs
+
+/-- **C07_wkb_alloc_spec.** … which is within the bound the specification demands of the implementation. -/
+theorem C07_wkb_alloc_spec (bs : Bytes) :
+    Spec.allocOK .wkb bs.length (decodeC fixed bs).cost = true := by
+  have := C07_wkb_alloc bs
+  have h : (decodeC fixed bs).cost ≤ 64 * bs.length + 65536 := by omega
+  simp only [Spec.allocOK, Spec.allocBound]
+  exact decide_eq_true h
+
+/-- the 9-byte message `01 02000000 ffffffff`: a LineString announcing 2^32−1 points -/
+def witness : Bytes := [1, 2, 0, 0, 0, 0xff, 0xff, 0xff, 0xff]
+
+/-- **C07_wkb_alloc_unfixed_false.** The allocation bound does NOT hold for the code before the fix:
+on the 9-byte witness it requests 16·(2^32−1) bytes (64 GiB) before looking at the payload. -/
+theorem C07_wkb_alloc_unfixed_false :
+    ¬ ∀ bs : Bytes, (decodeC unfixed bs).cost ≤ 64 * bs.length + 65536 := by
+  intro h
+  have := h witness
+  revert this
+  decide
+
+example : (decodeC unfixed witness).cost = 68719476720 := by decide
+example : (decodeC fixed witness).cost = 32768 := by decide
+
+
+/-- **C07_wkb_decoded_encodable.** Whatever `Decode` returns can be written back: all its member
+counts were read from 4-byte fields, so they fit 4-byte fields. -/
+theorem C07_wkb_decoded_encodable (bs : Bytes) (g : BGeom) (h : C05.decode bs = .ok g) : Encodable g := by
+  rcases C07_wkb_total bs with ⟨g', h1, h2⟩ | ⟨e, h1, _⟩
+  · rw [h] at h1; cases h1; exact h2
+  · rw [h] at h1; cases h1
+
+/-- **C07_reencode_stable** (WKB). Whenever decoding succeeds, re-encoding the result in either byte
+order and decoding again yields the same geometry — for every byte string, including those with
+mixed byte orders, trailing bytes, NaN payloads. -/
+theorem C07_reencode_stable (bs : Bytes) (g : BGeom) (h : C05.decode bs = .ok g) (bo : BO) :
+    ∃ bs', C05.encode bo g = .ok bs' ∧ C05.decode bs' = .ok g :=
+  C05_roundtrip bo g (C07_wkb_decoded_encodable bs g h)
+
+/-! ### hex -/
+
+theorem hexDecode_length : ∀ (n : Nat) (s : List Char) (bs : Bytes), s.length ≤ n →
+    C05.hexDecode s = some bs → 2 * bs.length = s.length := by
+  intro n
+  induction n using Nat.strongRecOn with
+  | _ n ih =>
+    intro s bs hn h
+    match s, h with
+    | [], h => simp [C05.hexDecode] at h; subst h; rfl
+    | [_], h => simp [C05.hexDecode] at h
+    | a :: b :: r, h =>
+      simp only [C05.hexDecode, bind, Option.bind] at h
+      cases hx : hexDigitVal a with
+      | none => rw [hx] at h; cases h
+      | some x =>
+        rw [hx] at h; simp only at h
+        cases hy : hexDigitVal b with
+        | none => rw [hy] at h; cases h
+        | some y =>
+          rw [hy] at h; simp only at h
+          cases ht : C05.hexDecode r with
+          | none => rw [ht] at h; cases h
+          | some t =>
+            rw [ht] at h; simp only [pure] at h; cases h
+            have := ih (r.length) (by simp at hn; omega) r t (Nat.le_refl _) ht
+            simp; omega
+
+/-- **C07_hex_total.** For EVERY string, `hex.Decode` returns a geometry, the hex error, or one of the
+four WKB errors; never a recursion-budget fault. -/
+theorem C07_hex_total (s : List Char) :
+    (∃ g, (hexDecodeC fixed s).res = .ok g) ∨ (hexDecodeC fixed s).res = .error .hex ∨
+    (∃ e, (hexDecodeC fixed s).res = .error (.wkb e) ∧ (e = .eof ∨ e = .badOrder ∨ e = .badType ∨ e = .unexpected)) := by
+  simp only [hexDecodeC]
+  cases h : C05.hexDecode s with
+  | none => exact .inr (.inl rfl)
+  | some bs =>
+    simp only [(C07_wkb_erase bs).1]
+    rcases C07_wkb_total bs with ⟨g, h1, _⟩ | ⟨e, h1, h2⟩
+    · rw [h1]; exact .inl ⟨g, rfl⟩
+    · rw [h1]; exact .inr (.inr ⟨e, rfl, h2⟩)
+
+/-- **C07_hex_alloc.** For EVERY string of length `n`, `hex.Decode` requests at most `4·n + 32768` bytes. -/
+theorem C07_hex_alloc (s : List Char) :
+    (hexDecodeC fixed s).cost ≤ 4 * s.length + 32768 ∧
+    Spec.allocOK .hex s.length (hexDecodeC fixed s).cost = true := by
+  have key : (hexDecodeC fixed s).cost ≤ 4 * s.length + 32768 := by
+    simp only [hexDecodeC]
+    cases h : C05.hexDecode s with
+    | none => simp only; omega
+    | some bs =>
+      simp only
+      have := hexDecode_length _ s bs (Nat.le_refl _) h
+      have := C07_wkb_alloc bs
+      omega
+  refine ⟨key, ?_⟩
+  simp only [Spec.allocOK, Spec.allocBound]
+  exact decide_eq_true (by omega)
+
 end GeomV.C07
